@@ -15,7 +15,7 @@ ANCHORS = [("lib/debian/copyright.py",
              "License", "_SpaceSeparated", "_LineBased", "_single_line", "_complain", "Copyright",
              "Header", "FilesParagraph", "LicenseParagraph", "_CURRENT_FORMAT", "_KNOWN_FORMATS"]),
            ("lib/debian/deb822.py", ["RestrictedWrapper", "RestrictedField"])]
-BUDGET = {"quick": 3000, "thorough": 30000}
+BUDGET = {"quick": 2000, "thorough": 24000}
 SHARD = 125
 RULE = ("codec cases: line lists / texts over a vocabulary of plain, indented, tab-indented, non-ASCII, empty, "
         "whitespace-only, lone-'.', '..', trailing-blank lines and lines containing LF, CR, FF, NEL, LS pushed through "
@@ -370,14 +370,13 @@ def _oval(f):
 def _view(C, c):
     out = []
     for p in c.all_paragraphs():
-        raw = [[str(k), p[k]] for k in p]
         if isinstance(p, C.Header):
             names, isf = HNAMES, False
         elif isinstance(p, C.FilesParagraph):
             names, isf = ["files", "copyright", "license", "comment"], True
         else:
             names, isf = ["license", "comment"], False
-        out.append({"files": isf, "raw": raw, "vals": [_oval(lambda n=n: getattr(p, n)) for n in names]})
+        out.append({"files": isf, "vals": [_oval(lambda n=n: getattr(p, n)) for n in names]})
     return out
 
 
@@ -478,8 +477,37 @@ def run_impl(case):
 # ---------------------------------------------------------------------------
 # Coq emitter
 
+_INTERN = None     # per-case table: a string literal that occurs several times is written once (let-bound)
+
+
+def _S(s):
+    if _INTERN is None or len(s) < 6:
+        return cq_str(s)
+    if s not in _INTERN:
+        _INTERN[s] = ["s%d" % len(_INTERN), 0]
+    _INTERN[s][1] += 1
+    return _INTERN[s][0]
+
+
+def _SS(ss):
+    return cq_list([_S(x) for x in ss])
+
+
+def emit(case, obs):
+    """The case as a Coq term.  Equal string literals are shared through let-bindings (elaborating
+    literals is what evaluation inside Coq costs)."""
+    global _INTERN
+    _INTERN = {}
+    try:
+        term = _emit(case, obs)
+        binds = "".join("let %s := %s in " % (v[0], cq_str(k)) for k, v in _INTERN.items())
+    finally:
+        _INTERN = None
+    return "(%s%s)" % (binds, term) if binds else term
+
+
 def _cq_ostr(s):
-    return cq_opt(s, cq_str)
+    return cq_opt(s, _S)
 
 
 def _cq_res(r, f):
@@ -487,7 +515,7 @@ def _cq_res(r, f):
 
 
 def _cq_pair(p):
-    return "(%s, %s)" % (cq_str(p[0]), cq_str(p[1]))
+    return "(%s, %s)" % (_S(p[0]), _S(p[1]))
 
 
 def _cq_olic(l):
@@ -498,62 +526,61 @@ def _cq_ival(v):
     if v is None:
         return "INone"
     if "s" in v:
-        return "(IStr %s)" % cq_str(v["s"])
+        return "(IStr %s)" % _S(v["s"])
     if "l" in v:
-        return "(IList %s)" % cq_strs(v["l"])
-    return "(ILic %s %s)" % (cq_str(v["lic"][0]), _cq_ostr(v["lic"][1]))
+        return "(IList %s)" % _SS(v["l"])
+    return "(ILic %s %s)" % (_S(v["lic"][0]), _cq_ostr(v["lic"][1]))
 
 
 def _cq_oval(o):
     if o[0] == "none":
         return "ONone"
     if o[0] == "str":
-        return "(OStr %s)" % cq_str(o[1])
+        return "(OStr %s)" % _S(o[1])
     if o[0] == "list":
-        return "(OList %s)" % cq_strs(o[1])
+        return "(OList %s)" % _SS(o[1])
     if o[0] == "lic":
-        return "(OLic %s %s)" % (cq_str(o[1]), cq_str(o[2]))
+        return "(OLic %s %s)" % (_S(o[1]), _S(o[2]))
     return "(OErr %s)" % o[1]
 
 
 def _cq_view(v):
-    return "(mkOV %s %s %s)" % (cq_bool(v["files"]), cq_list([_cq_pair(p) for p in v["raw"]]),
-                                cq_list([_cq_oval(o) for o in v["vals"]]))
+    return "(mkOV %s %s)" % (cq_bool(v["files"]), cq_list([_cq_oval(o) for o in v["vals"]]))
 
 
 def _cq_views(vs):
     return cq_list([_cq_view(v) for v in vs])
 
 
-def emit(case, obs):
+def _emit(case, obs):
     k = case["kind"]
     if k == "lines":
-        return "KLines %s %s %s" % (cq_strs(case["ls"]), cq_str(obs["enc"]), _cq_res(obs["back"], cq_strs))
+        return "KLines %s %s %s" % (_SS(case["ls"]), _S(obs["enc"]), _cq_res(obs["back"], _SS))
     if k == "text":
         return "KText %s %s %s" % (_cq_ostr(case["s"]), _cq_ostr(obs["enc"]), _cq_res(obs["back"], _cq_ostr))
     if k == "parse":
-        return "KParse %s %s" % (cq_str(case["s"]), _cq_res(obs["r"], cq_strs))
+        return "KParse %s %s" % (_S(case["s"]), _cq_res(obs["r"], _SS))
     if k == "lic":
         if obs["mk"][0] == "err":
             o = "(Err %s)" % obs["mk"][1]
         else:
-            o = "(Ok (%s, %s))" % (cq_str(obs["enc"]), _cq_res(obs["back"], _cq_olic))
-        return "KLic %s %s %s" % (cq_str(case["lic"][0]), _cq_ostr(case["lic"][1]), o)
+            o = "(Ok (%s, %s))" % (_S(obs["enc"]), _cq_res(obs["back"], _cq_olic))
+        return "KLic %s %s %s" % (_S(case["lic"][0]), _cq_ostr(case["lic"][1]), o)
     if k == "licfrom":
         return "KLicFrom %s %s" % (_cq_ostr(case["s"]), _cq_res(obs["r"], _cq_olic))
     if k in ("ss", "lb"):
-        return "%s %s %s %s" % ("KSS" if k == "ss" else "KLB", cq_strs(case["l"]),
-                                _cq_res(obs["enc"], _cq_ostr), cq_strs(obs["back"]))
+        return "%s %s %s %s" % ("KSS" if k == "ss" else "KLB", _SS(case["l"]),
+                                _cq_res(obs["enc"], _cq_ostr), _SS(obs["back"]))
     if k in ("ssfrom", "lbfrom"):
         return "%s %s %s %s %s" % ("KSSFrom" if k == "ssfrom" else "KLBFrom", _cq_ostr(case["s"]),
-                                   cq_strs(obs["l"]), _cq_res(obs["enc"], _cq_ostr), cq_strs(obs["l2"]))
+                                   _SS(obs["l"]), _cq_res(obs["enc"], _cq_ostr), _SS(obs["l2"]))
     if k == "doc":
         hops = []
         for op in case["hops"]:
             if op[0] == "set":
                 hops.append("IHSet %s %s" % (cq_N(op[1]), _cq_ival(op[2])))
             else:
-                hops.append("IHItem %s %s" % (cq_str(op[1]), cq_str(op[2])))
+                hops.append("IHItem %s %s" % (_S(op[1]), _S(op[2])))
         specs = []
         for sp in case["specs"]:
             if sp[0] == "files":
@@ -563,17 +590,18 @@ def emit(case, obs):
         if "build_err" in obs:
             o = "(OBuildErr %s)" % obs["build_err"]
         elif "parse_err" in obs:
-            o = "(OParseErr %s %s %s)" % (cq_str(obs["dump1"]), _cq_views(obs["v1"]), obs["parse_err"])
+            o = "(OParseErr %s %s %s)" % (_S(obs["dump1"]), _cq_views(obs["v1"]), obs["parse_err"])
         else:
-            o = "(ODone %s %s %s %s)" % (cq_str(obs["dump1"]), _cq_views(obs["v1"]), _cq_views(obs["v2"]),
-                                         cq_str(obs["dump2"]))
+            same = obs["v2"] == obs["v1"] and obs["dump2"] == obs["dump1"]
+            again = "None" if same else "(Some (%s, %s))" % (_cq_views(obs["v2"]), _S(obs["dump2"]))
+            o = "(ODone %s %s %s)" % (_S(obs["dump1"]), _cq_views(obs["v1"]), again)
         return "KDoc %s %s %s %s %s" % (cq_list(hops), cq_list(specs), cq_N(case["form"]),
                                         cq_bool(case["strict"]), o)
     if "err" in obs:
         o = "(Err %s)" % obs["err"]
     else:
-        o = "(Ok (%s, %s))" % (_cq_views(obs["v"]), cq_str(obs["dump"]))
-    return "KParseDoc %s %s %s %s" % (cq_str(case["text"]), cq_N(case["form"]), cq_bool(case["strict"]), o)
+        o = "(Ok (%s, %s))" % (_cq_views(obs["v"]), _S(obs["dump"]))
+    return "KParseDoc %s %s %s %s" % (_S(case["text"]), cq_N(case["form"]), cq_bool(case["strict"]), o)
 
 
 # ---------------------------------------------------------------------------
